@@ -831,6 +831,14 @@ where
             return;
         }
 
+        // This op may be stale: the entry may have been invalidated, or replaced
+        // with a new entry of the same key, after the op was created. Such an entry
+        // must not be admitted (its Remove op has been or will be applied), and a
+        // rejection must not remove the newer entry from the hash map.
+        if !self.is_current_entry(&kh.key, &entry) {
+            return;
+        }
+
         if self.has_enough_capacity(new_weight, counters) {
             // There are enough room in the cache (or the cache is unbounded).
             // Add the candidate to the deques.
@@ -841,7 +849,7 @@ where
         if let Some(max) = self.max_capacity {
             if new_weight as u64 > max {
                 // The candidate is too big to fit in the cache. Reject it.
-                self.cache.remove(&Arc::clone(&kh.key));
+                self.remove_if_current(&kh.key, &entry);
                 return;
             }
         }
@@ -858,8 +866,12 @@ where
             } => {
                 // Try to remove the victims from the cache (hash map).
                 for victim in victim_nodes {
-                    if let Some((_vic_key, vic_entry)) =
-                        self.cache.remove(unsafe { victim.as_ref().element.key() })
+                    let vic_elem = &unsafe { victim.as_ref() }.element;
+                    // Remove the victim only when the hash map still has the entry
+                    // this node belongs to.
+                    if let Some((_vic_key, vic_entry)) = self
+                        .cache
+                        .remove_if(vic_elem.key(), |_, v| vic_elem.is_node_of(v.entry_info()))
                     {
                         // And then remove the victim from the deques.
                         Self::handle_remove(deqs, vic_entry, counters);
@@ -878,7 +890,7 @@ where
             AdmissionResult::Rejected { skipped_nodes: s } => {
                 skipped_nodes = s;
                 // Remove the candidate from the cache (hash map).
-                self.cache.remove(&Arc::clone(&kh.key));
+                self.remove_if_current(&kh.key, &entry);
             }
         };
 
@@ -887,6 +899,23 @@ where
         for node in skipped_nodes {
             unsafe { deqs.probation.move_to_back(node) };
         }
+    }
+
+    /// Returns `true` if the hash map holds `entry` or an updated version of it
+    /// (an update shares the `EntryInfo` with the entry it has replaced).
+    #[inline]
+    fn is_current_entry(&self, key: &Arc<K>, entry: &TrioArc<ValueEntry<K, V>>) -> bool {
+        self.cache
+            .get(key)
+            .map(|e| TrioArc::ptr_eq(e.entry_info(), entry.entry_info()))
+            .unwrap_or(false)
+    }
+
+    #[inline]
+    fn remove_if_current(&self, key: &Arc<K>, entry: &TrioArc<ValueEntry<K, V>>) {
+        self.cache.remove_if(key, |_, v| {
+            TrioArc::ptr_eq(v.entry_info(), entry.entry_info())
+        });
     }
 
     /// Performs size-aware admission explained in the paper:
@@ -932,7 +961,10 @@ where
                 next_victim = DeqNode::next_node_ptr(victim);
                 let vic_elem = &unsafe { victim.as_ref() }.element;
 
-                if let Some(vic_entry) = cache.get(vic_elem.key()) {
+                let vic_entry = cache
+                    .get(vic_elem.key())
+                    .filter(|e| vic_elem.is_node_of(e.entry_info()));
+                if let Some(vic_entry) = vic_entry {
                     victims.add_policy_weight(vic_entry.policy_weight());
                     victims.add_frequency(freq, vic_elem.hash());
                     victim_nodes.push(victim);
